@@ -258,7 +258,13 @@ fn reduce<D: PartialEq>(frame: &Frame, eval: &dyn Fn(&Frame) -> Option<D>) -> Fr
             }
         }
     }
+    let mut steps = 0usize;
     'outer: loop {
+        // every accepted step strictly simplifies the frame; the cap is a backstop only
+        steps += 1;
+        if steps > 1000 {
+            break;
+        }
         for i in (1..cur.len()).rev() {
             let mut cand = cur.clone();
             cand.remove(i);
@@ -271,7 +277,7 @@ fn reduce<D: PartialEq>(frame: &Frame, eval: &dyn Fn(&Frame) -> Option<D>) -> Fr
         for i in 1..cur.len() {
             if let El::B(b) = &cur[i] {
                 let up = b.to_ascii_uppercase();
-                if up != *b {
+                if up != *b && rank(&cur[i]) == 2 {
                     let mut cand = cur.clone();
                     cand[i] = El::B(up);
                     if eval(&cand).as_ref() == Some(&d0) {
